@@ -9,7 +9,8 @@
    Code transcribed (armi/physics/neutronics/crossSectionGroupManager.py, class CrossSectionGroupManager)
      _setBuGroupBounds/_setTempGroupBounds        the bounds of a scenario (upper bounds, ascending, + infinity)
      _updateEnvironmentGroups                     Refresh / EnvOf: first burnup bound with bu <= upper; first temperature
-                                                  bound with T(xsTempIsotope) <= upper (only when temperature groups exist);
+                                                  bound with T(xsTempIsotope) <= upper (only when temperature groups exist and
+                                                  the settings found for the block's CURRENT key name an isotope, else group 0);
                                                   number = tempGroup * numBuGroups + buGroup; skipped when updates are disabled
                                                   or when there is a single burnup and a single temperature group
      Block.getMicroSuffix (reactor/blocks.py)     IdOf: one-letter type + environment letter; a two-letter type is the key itself
@@ -72,9 +73,9 @@ Single == Len(S.bub) = 0 /\ Len(S.tb) = 0
 FirstLeq(x, bounds) == LET ok == {g \in 1..Len(bounds) : RLeq(x, RInt(bounds[g]))}
                        IN IF ok = {} THEN Len(bounds) ELSE Min(ok) - 1
 BuGroup(b)   == FirstLeq(RInt(b.bu), S.bub)
-TempGroup(b) == IF Len(S.tb) = 0 THEN 0 ELSE FirstLeq(NucTemp(<<b>>, "Average", TempNuc), S.tb)
-EnvOf(b)     == TempGroup(b) * NumBu + BuGroup(b)
-Refresh      == IF enabled /\ ~Single THEN Concrete([i \in 1..N |-> EnvOf(blk[i])]) ELSE env
+\* iso = the temperature isotope (nuclide index) of the settings that apply to the block, 0 = none
+TempGroup(b, iso) == IF Len(S.tb) = 0 \/ iso = 0 THEN 0 ELSE FirstLeq(NucTemp(<<b>>, "Average", iso), S.tb)
+EnvNum(b, iso)    == TempGroup(b, iso) * NumBu + BuGroup(b)
 
 (* ---------- keys, groups, settings ---------- *)
 \* a key is a pair of alphabet indices: (type letter, environment letter) or the two letters of the type
@@ -82,12 +83,18 @@ IdOf(i, e)   == IF Two THEN blk[i].xs ELSE <<blk[i].xs[1], EnvLetterIdx(e[i])>>
 IdText(id)   == Alphabet[id[1]] \o Alphabet[id[2]]
 IdLess(a, b) == a[1] < b[1] \/ (a[1] = b[1] /\ a[2] < b[2])
 Default      == Opt(S.grep, S.gfilter, FALSE)
-OptFor(id) ==
+\* the settings record that applies to a key: its own, else the one of the same type with the lowest lower letter, else the defaults
+CtlFor(id) ==
     LET exact == {c \in S.ctl : c.id = id}
         lower == {c \in S.ctl : c.id[1] = id[1] /\ c.id[2] < id[2]}
-    IN IF exact # {} THEN (CHOOSE c \in exact : TRUE).opt
-       ELSE IF lower = {} THEN Default
-       ELSE (CHOOSE c \in lower : \A d \in lower : c.id[2] <= d.id[2]).opt
+    IN IF exact # {} THEN CHOOSE c \in exact : TRUE
+       ELSE IF lower = {} THEN [id |-> id, opt |-> Default, iso |-> TempNuc]
+       ELSE CHOOSE c \in lower : \A d \in lower : c.id[2] <= d.id[2]
+OptFor(id) == CtlFor(id).opt
+\* the environment number of block i depends on the block alone: its burnup, its temperature, and (through the settings
+\* looked up with its current key) its type and current environment letter
+EnvOf(i)   == EnvNum(blk[i], CtlFor(IdOf(i, env)).iso)
+Refresh    == IF enabled /\ ~Single THEN Concrete([i \in 1..N |-> EnvOf(i)]) ELSE env
 GroupSeq(e) ==
     LET order == SetToSortSeq({IdOf(i, e) : i \in 1..N}, IdLess)
     IN Concrete([g \in Idx(order) |-> [id  |-> order[g],
@@ -98,7 +105,7 @@ MembersOf(G) == Concrete([j \in Idx(G.mem) |-> blk[G.mem[j]]])
 (* ---------- actions ---------- *)
 SeqProduct(sets) == FoldLeft(LAMBDA acc, X : {Append(a, x) : a \in acc, x \in X}, {<<>>}, sets)
 MkBlock(s, i, ch) == [xs |-> s.xs[i], kind |-> s.fixed[i].kind, alt |-> s.fixed[i].alt, h |-> s.fixed[i].h, hm |-> s.fixed[i].hm,
-                      n |-> s.fixed[i].n, t |-> <<ch[2], s.fixed[i].t2>>, bu |-> ch[1], w |-> ch[3]]
+                      n |-> s.fixed[i].n, t |-> <<ch[2], s.fixed[i].t2>>, bu |-> ch[1], w |-> ch[3], ord |-> <<1, 2>>, lfp |-> FALSE]
 Init == /\ scn \in Scenarios
         /\ blk \in {[i \in 1..Len(ScnOf(scn).xs) |-> MkBlock(ScnOf(scn), i, c[i])] : c \in SeqProduct(ScnOf(scn).choices)}
         /\ env = [i \in 1..Len(ScnOf(scn).xs) |-> 0]
@@ -166,10 +173,20 @@ KeyDetermines ==
                                       <=> (blk[i].xs = blk[j].xs /\ (Two \/ genv[i] = genv[j]))
 \* the environment number is the (temperature group, burnup group) of the block: monotone in the burnup, one number per pair
 EnvironmentRule ==
-    /\ (Grouped /\ enabled /\ ~Single) => \A i \in 1..N : genv[i] = EnvOf(blk[i])
-    /\ \A i, j \in 1..N : blk[i].bu <= blk[j].bu => BuGroup(blk[i]) <= BuGroup(blk[j])
-    /\ \A i, j \in 1..N : (EnvOf(blk[i]) = EnvOf(blk[j])) <=> (BuGroup(blk[i]) = BuGroup(blk[j]) /\ TempGroup(blk[i]) = TempGroup(blk[j]))
-    /\ \A i \in 1..N : \A g \in 1..Len(S.bub) : (BuGroup(blk[i]) < g) <=> (blk[i].bu <= S.bub[g])
+    LET bg == Concrete([i \in 1..N |-> BuGroup(blk[i])])
+        tg == Concrete([i \in 1..N |-> TempGroup(blk[i], TempNuc)])           \* with the default isotope; without one it is 0
+        num(i, x) == (IF x = 0 THEN 0 ELSE tg[i]) * NumBu + bg[i]
+    IN /\ \A i, j \in 1..N : blk[i].bu <= blk[j].bu => bg[i] <= bg[j]
+       /\ \A i, j \in 1..N : \A x, y \in {0, TempNuc} :
+              (num(i, x) = num(j, y)) <=> (bg[i] = bg[j] /\ (IF x = 0 THEN 0 ELSE tg[i]) = (IF y = 0 THEN 0 ELSE tg[j]))
+       /\ \A i \in 1..N : \A g \in 1..Len(S.bub) : (bg[i] < g) <=> (blk[i].bu <= S.bub[g])
+       /\ \A i \in 1..N : EnvNum(blk[i], TempNuc) = num(i, TempNuc) /\ EnvNum(blk[i], 0) = num(i, 0) /\ num(i, TempNuc) \in EnvNums
+\* "determined by ITS cross-section type and environment": blocks in the same own state (type, burnup, composition, temperatures,
+\* current environment letter) get the same environment number, whatever their neighbours in the core are
+OwnState(i) == <<blk[i].xs, blk[i].bu, blk[i].n, blk[i].t, env[i]>>
+NeighboursIrrelevant ==
+    [][act'.n \in {"Make", "Create"} =>
+          \A i, j \in 1..N : OwnState(i) = OwnState(j) => genv'[i] = genv'[j]]_vars
 \* "built only from the group's eligible members", at the level of the manager
 RepsFromEligibleOnly ==
     (act.n = "Create" /\ err = "") =>
@@ -194,6 +211,7 @@ RelabelRule ==
                ELSE IF \E r \in ok : r[1] = id0[1] THEN IdOf(i, env) \in ok /\ \A r \in ok : r[1] = id0[1] => env[i] <= EnvNumOfIdx(r[2])
                ELSE env[i] = genv[i]
 \* "Creating representatives never changes the blocks of the core" (all but the environment-group bookkeeping)
+RefreshIsEnvOf   == [][(act'.n \in {"Make", "Create"} /\ enabled /\ ~Single) => \A i \in 1..N : genv'[i] = EnvOf(i)]_vars
 BlocksUntouched  == [][act'.n \in {"Create", "Make", "Disable", "Enable"} => blk' = blk]_vars
 DisabledFreezes  == [][(act'.n = "Make" /\ ~enabled) => env' = env]_vars
 RefusalKeepsReps == [][err' # "" => reps' = reps]_vars
